@@ -1,6 +1,6 @@
 (* C17 -- A leading backslash makes markup literal (partial).  Property theorems only. *)
 From Rimu Require Import Base Regex RegexParse Str Types Tables Guards State Inline Block
-  Frame FrameBlock FrameInst OptionsLemmas MiscLemmas MoreLemmas.
+  Frame FrameBlock FrameInst OptionsLemmas MiscLemmas MoreLemmas Plain MatchExact MacroSubst.
 
 (* an escaped replacement (link, image, e-mail, URL, tag, entity ...) is rendered as its own text,
    escaped, minus the backslash, as a finished fragment *)
@@ -13,4 +13,23 @@ Example C17_ex :
   match api_render 40 $"\[a](b) \<c@d.e> \&amp; \*x* \<b> \http://u.v" (mkOpts PyNone PyNone PyNone false) S0 with
   | Ok (html, _) => str_eqb html $"<p>[a](b) &lt;c@d.e&gt; &amp;amp; *x* &lt;b&gt; http://u.v</p>"
   | _ => false end = true.
+Proof. vm_compute. reflexivity. Qed.
+
+(* an escaped macro invocation is left as written without its backslash: in text with no other brace or backslash,
+   \{name} comes out of macros.render as {name} -- whether or not the macro is defined, with no diagnostic, and the
+   second (parametrised) pass does not pick it up: its pattern has no match on {name} (exact semantics) *)
+Theorem C17_escaped_invocation : forall sr s pre name post silent,
+  quiet pre -> quiet post -> name_ok name ->
+  macros_render sr s (pre ++ 92 :: 123 :: name ++ 125 :: post) silent = iret (pre ++ 123 :: name ++ 125 :: post).
+Proof. exact escaped_invocation. Qed.
+Print Assumptions C17_escaped_invocation.
+
+Theorem C17_parametrised_pattern_skips_simple : forall i p name post, name_ok name ->
+  match_at re_macros_render_0 i p (123 :: name ++ 125 :: post) = None.
+Proof. exact complex_no_match. Qed.
+Print Assumptions C17_parametrised_pattern_skips_simple.
+
+Example C17_ex_escaped :
+  let s := mkIenv 0 [] [] [] [($"who", $"the world")] in
+  macros_render (fun t => iret t) s $"Hello \{who}, and goodbye." false = iret $"Hello {who}, and goodbye.".
 Proof. vm_compute. reflexivity. Qed.
